@@ -158,6 +158,8 @@ class Translator:
                     base = self.conv_type(parse_type(fields[0], what, self.items), what)
                     if base[0] in ("int", "usize"):
                         return ("nt", name, base)
+                    if base[0] == "nt":
+                        return ("nt", name, base[2])
                 if kind == "named":
                     return ("struct", name)
             if name in self.items.enums:
@@ -474,7 +476,9 @@ class ExprMixin:
             if ta[0] == "nt" or tb[0] == "nt":
                 if ta != tb:
                     raise ShapeError(f"{ctx.what}: comparison of {self.show(ta)} with {self.show(tb)}")
-            elif ta[0] == "enum" and tb == ta and op in ("==", "!="):
+            elif ta[0] in ("enum", "xenum") and tb == ta and op in ("==", "!="):
+                pass
+            elif ta[0] == "bytes" and tb[0] == "bytes" and op in ("==", "!="):
                 pass
             elif ta[0] == "option" and tb[0] == "option" and op in ("==", "!=") and \
                     self.res(ta[1])[0] in ("int", "usize", "nt", "var") and self.res(tb[1])[0] in ("int", "usize", "nt", "var"):
@@ -668,6 +672,9 @@ class ExprMixin:
         return V("[" + ", ".join(f"UInt8.ofNat {v.lean}" if atom(v.lean) else f"UInt8.ofNat {v.lean}" for v in vs) + "]",
                  ("bytes", len(vs)), conj(*[v.ok for v in vs]))
 
+    def tr_bytestr(self, e, env, ctx):
+        return V("[" + ", ".join(f"UInt8.ofNat {b}" for b in e[1]) + "]", ("bytes", len(e[1])))
+
     def tr_repeat(self, e, env, ctx):
         v = self.tr(e[1], env, ctx)
         self.unify(v.ty, ("int", 8), f"{ctx.what}: array literal (only byte arrays are in the subset)")
@@ -805,7 +812,9 @@ class CallMixin:
             if nt[0] != "nt":
                 raise ShapeError(f"{ctx.what}: constructor {name}(..) is outside the subset")
             v = self.tr(args[0], env, ctx)
-            self.unify_val(v, nt[2], ctx)
+            vt = self.res(v.ty)
+            if not (vt[0] == "nt" and vt[2] == nt[2]):
+                self.unify_val(v, nt[2], ctx)
             return V(v.lean, nt, v.ok, v.const)
         if tyname in self.items.enums:
             for vname, payload in self.items.enums[tyname]:
@@ -1297,6 +1306,8 @@ class StmtMixin:
                 if getattr(ctx, "ret_with_self", False):
                     sv = self.struct_value(env["self"], ctx)
                     return V(f"({self.value(v, ctx)}, {sv.lean})", ("tuple", [v.ty, sv.ty]), v.ok)
+                if getattr(ctx, "ret_pair", None) is not None:
+                    return V(f"({self.value(v, ctx)}, {ctx.ret_pair(env)})", ("tuple", [v.ty, ctx.vself]), v.ok)
                 return v
             if e[0] == "assign":
                 return self.st_assign(e, env, ctx, cont)
